@@ -49,8 +49,9 @@ from checks import c21 as G
 RUST = ("cmd-py",)
 THEOREMS = [
     "uncommit_commit_id", "uncommit_tip", "uncommit_revno_ok", "uncommit_pending",
-    "filterParents_head", "filterParents_sub", "tags_dropped_iff", "tags_kept", "tags_on_new_ancestry_survive",
-    "uncommit_error_kinds", "uncommit_to_null_with_merges_witness", "uncommit_tree_basis_partial",
+    "filterParents_head", "filterParents_sub", "filterParents_keeps_heads", "uncommit_tree_basis_partial",
+    "uncommit_to_null_with_merges_witness", "tags_dropped_iff", "tags_after_uncommit", "tags_kept",
+    "tags_on_new_ancestry_survive", "local_uncommit_master_tags_witness",
 ]
 RULE = ("scenario = random DAG committed through a real 2a working tree; cases = every (tip T, depth d<=revno(T)) "
         "with random pending merges, tags, keep_tags, bound master / local; plus commit+uncommit round trips in "
@@ -67,7 +68,7 @@ NULL = G.NULL
 GH0 = G.GH0
 rid, unrid, tip_s = G.rid, G.unrid, G.tip_s
 
-ERRS = {"RevisionNotPresent": "E:NotPresent", "BoundBranchOutOfDate": "E:OutOfDate",
+ERRS = {"PanicException": "E:Panic", "RevisionNotPresent": "E:NotPresent", "BoundBranchOutOfDate": "E:OutOfDate",
         "LocalRequiresBoundBranch": "E:LocalRequiresBound", "GhostRevisionUnusableHere": "E:GhostParent"}
 
 
@@ -129,6 +130,9 @@ def ref_uncommit(dag, tip, d, p0):
 class Scenario:
     def __init__(self, dag):
         from breezy.controldir import ControlDir, format_registry
+        from breezy import lockdir
+        os.environ.setdefault("RUST_BACKTRACE", "0")
+        lockdir._DEFAULT_TIMEOUT_SECONDS = 0     # a self-deadlock must not stall the run
         self.dag = dag
         self.dir = env.fresh_dir("c16")
         self.wt = env.make_tree("2a", os.path.join(self.dir, "t"))
@@ -147,6 +151,10 @@ class Scenario:
             with open(os.path.join(self.wt.basedir, "f"), "w") as f:
                 f.write("content of %d\n" % r)
             self.wt.commit("rev %d" % r, rev_id=rid(r))
+            # a working tree only records merges that are heads: read back what was really committed
+            with b.lock_read():
+                real = b.repository.get_parent_map([rid(r)])[rid(r)]
+            dag["parents"][r] = [unrid(p) for p in real if p != NULL]
         self.master = ControlDir.create_branch_convenience(
             os.path.join(self.dir, "m"), format=format_registry.make_controldir("2a"), force_new_tree=False)
         self.master.repository.fetch(b.repository)
@@ -211,10 +219,26 @@ class Scenario:
         try:
             uncommit(self.wt.branch, tree=self.wt, revno=self.revno(c["tip"]) - c["d"] + 1,
                      keep_tags=c["keep"], local=c["local"])
-        except Exception as e:
+        except (KeyboardInterrupt, SystemExit):
+            raise
+        except BaseException as e:      # pyo3 PanicException derives from BaseException
             err = err_s(e)
         after = self.observe()
         return before, err, after
+
+    def run_excluded(self, c):
+        from breezy.uncommit import uncommit
+        self.setup(dict(tip=c["tip"], p0=[], tags={}, master=None))
+        before = self.observe()
+        err = None
+        try:
+            uncommit(self.wt.branch, tree=self.wt, revno=c["revno"])
+        except (KeyboardInterrupt, SystemExit):
+            raise
+        except BaseException as e:
+            err = err_s(e)
+        after = self.observe()
+        return dict(before=before, err=err, after=after)
 
     def run_roundtrip(self, c):
         """commit in the state of c (with file edits), then uncommit that commit"""
@@ -239,7 +263,9 @@ class Scenario:
             wt.commit("roundtrip", rev_id=b"c%d" % new)
             mid = self.observe()
             uncommit(wt.branch, tree=wt)
-        except Exception as e:
+        except (KeyboardInterrupt, SystemExit):
+            raise
+        except BaseException as e:
             err = err_s(e)
             mid = None
         after = self.observe()
@@ -280,6 +306,27 @@ def st_line(st):
     return "%s %s %s" % (branch_s(st["tip"], st["revno"], st["tags"]), m, revs_s(st["parents"]))
 
 
+def gen_dag16(rng, n):
+    """DAG whose merges are mostly real merges (of revisions that are not ancestors of the
+    left-hand parent), as a working tree would record them"""
+    dag = G.gen_dag(rng, n, max_parents=1)
+    ng = sum(1 for ps in dag["parents"].values() for p in ps if p >= GH0)
+    for i in dag["order"]:
+        ps = dag["parents"][i]
+        if not ps or ps[0] >= GH0:
+            continue
+        anc0 = G.ref_anc(dag, ps[0])
+        cands = [e for e in range(1, i) if e not in anc0]
+        while cands and len(ps) < 3 and rng.random() < 0.55:
+            x = rng.choice(cands)
+            cands.remove(x)
+            ps.append(x)
+        if len(ps) < 3 and rng.random() < 0.12:
+            ps.append(GH0 + ng)
+            ng += 1
+    return dag
+
+
 def gen_cases(rng, dag):
     nodes = dag["order"]
     ghosts = sorted({p for ps in dag["parents"].values() for p in ps if p >= GH0})
@@ -304,6 +351,11 @@ def gen_cases(rng, dag):
                 local = True
             cases.append(dict(f="unc", tip=T, d=d, p0=p0, tags=tags, keep=rng.random() < 0.25,
                               master=master, local=local))
+    # excluded inputs (the command refuses them before calling uncommit): revno outside 1..revno(T).
+    # The real code is run and its behaviour counted; nothing is compared.
+    T = rng.choice(nodes)
+    cases.append(dict(f="excluded", tip=T, revno=rng.choice([0, len(G.ref_lh_stop_at_ghost(dag, T)) + 1,
+                                                              len(G.ref_lh_stop_at_ghost(dag, T)) + 2])))
     # commit / uncommit round trips
     for _ in range(max(2, len(nodes) // 2)):
         T = rng.choice(nodes)
@@ -317,8 +369,9 @@ def gen_cases(rng, dag):
 
 def _worker(job):
     dag, cases = job
-    sc = Scenario(dag)
-    out = []
+    dag = dict(order=list(dag["order"]), parents={k: list(v) for k, v in dag["parents"].items()})
+    sc = Scenario(dag)          # corrects dag["parents"] to what the tree really committed
+    out = [dag]
     try:
         for c in cases:
             if c["f"] == "unc":
@@ -328,6 +381,8 @@ def _worker(job):
                 if ref is not None:
                     gobs = sc.graph_obs(c["tip"], ref[1], ref[1])
                 out.append(dict(before=before, err=err, after=after, gobs=gobs))
+            elif c["f"] == "excluded":
+                out.append(sc.run_excluded(c))
             else:
                 out.append(sc.run_roundtrip(c))
     finally:
@@ -338,11 +393,54 @@ def _worker(job):
 # ---------------------------------------------------------------------------
 # oracle
 
+def expected_gone(dag, c, before):
+    """names of the branch's tags that sit on removed revisions (None: walk meets a ghost)"""
+    ref = ref_uncommit(dag, c["tip"], c["d"], before["parents"][1:])
+    if ref is None:
+        return None
+    parents = ref[1]
+    uniq = G.ref_anc(dag, c["tip"])
+    for p in parents:
+        uniq = uniq - G.ref_anc(dag, p)
+    return set() if c["keep"] else {k for k, v in before["tags"].items() if v in uniq}
+
+
+def known_family(dag, c, before, err):
+    """classifier of the specific input families on which the unchanged code is known to misbehave"""
+    ref = ref_uncommit(dag, c["tip"], c["d"], before["parents"][1:])
+    if ref is None:
+        return None
+    gone = expected_gone(dag, c, before)
+    if err == "E:Panic" and before["master"] is not None and not c["local"] and gone:
+        # bound branch, master locked by uncommit, a tag has to be deleted: delete_tag opens a second
+        # master object (set_last_revision_info cleared the cache) and contends with uncommit's own lock
+        return "bound-uncommit-tag-removal-lock-contention"
+    if ref[0] is None and ref[1] and err in (None, "E:GhostParent"):
+        return "uncommit-to-null-with-merges"
+    return None
+
+
 def oracle_uncommit(dag, c, before, err, after, sink):
+    fam = known_family(dag, c, before, err)
+    if fam == "bound-uncommit-tag-removal-lock-contention":
+        sink("uncommit of a tagged revision in a bound branch dies with LockContention on its own master lock "
+             "(PanicException) after moving the tips; tags left: %s" % (after["tags"],), fam)
+        return
+    if fam == "uncommit-to-null-with-merges" and err == "E:GhostParent":
+        sink("uncommit to null: with pending merges %s: set_parent_ids raises GhostRevisionUnusableHere after the "
+             "branch tip was moved; tree parents still %s" % (ref_uncommit(dag, c["tip"], c["d"], before["parents"][1:])[1],
+                                                             after["parents"]), fam)
+        return
+    out_of_step = (before["master"] is not None and not c["local"]
+                   and before["master"]["tip"] != before["tip"])
+    if out_of_step and err != "E:OutOfDate":
+        sink("the master is at %s, the bound branch at %s, but uncommit did not refuse (%s): master now at %s"
+             % (tip_s(before["master"]["tip"]), tip_s(before["tip"]), err or "ok", tip_s(after["master"]["tip"])), None)
+        return
     if err is not None:
         if after != before:
             sink("%s raised but the state changed: %r -> %r" % (err, before, after), None)
-        if err.startswith("E:other"):
+        if err.startswith("E:other") or err == "E:Panic":
             sink("unexpected exception %s" % err, None)
         return
     ref = ref_uncommit(dag, c["tip"], c["d"], before["parents"][1:])
@@ -368,8 +466,7 @@ def oracle_uncommit(dag, c, before, err, after, sink):
         sink("tree parents %s, expected %s (removed merges, older revision first, then previous pending merges)"
              % (after["parents"], ref_filter(dag, parents)), None)
     # tags
-    uniq = G.ref_anc(dag, c["tip"]) - set().union(*[G.ref_anc(dag, p) for p in parents]) if parents else G.ref_anc(dag, c["tip"])
-    gone = set() if c["keep"] else {k for k, v in before["tags"].items() if v in uniq}
+    gone = expected_gone(dag, c, before)
     exp = {k: v for k, v in before["tags"].items() if k not in gone}
     if after["tags"] != exp:
         sink("tags %s, expected %s (dropped iff on a removed revision)" % (after["tags"], exp), None)
@@ -419,17 +516,20 @@ def oracle_roundtrip(c, res, sink):
 # ---------------------------------------------------------------------------
 
 def run(ctx, ndags=None, maxn=None):
-    ndags = ndags or ctx.pick(14, 120)
+    ndags = ndags or ctx.pick(16, 120)
     maxn = maxn or ctx.pick(7, 10)
     jobs = []
     for _ in range(ndags):
-        dag = G.gen_dag(ctx.rng, ctx.rng.randint(3, maxn))
+        dag = gen_dag16(ctx.rng, ctx.rng.randint(3, maxn))
         jobs.append((dag, gen_cases(ctx.rng, dag)))
     results = ctx.pmap(_worker, jobs, chunksize=1)
     cases, lines, outs = [], [], []
-    for (dag, cs), res in zip(jobs, results):
+    for (_, cs), res in zip(jobs, results):
+        dag = res[0]
+        res = res[1:]
         genc = G.enc_graph(dag)
         ctx.count("dag_size:%d" % len(dag["order"]))
+        ctx.count("dag_merges:%d" % sum(1 for ps in dag["parents"].values() if len(ps) > 1))
         for c, r in zip(cs, res):
             case = dict(g=genc, **c)
             sink = lambda what, fam, case=case: ctx.violation(case, what, family=fam)  # noqa: E731
@@ -445,6 +545,11 @@ def run(ctx, ndags=None, maxn=None):
                 if removed_merge:
                     ctx.count("unc removes-merge")
                 oracle_uncommit(dag, c, before, err, after, sink)
+                fam = known_family(dag, c, before, err)
+                if fam is not None:
+                    ctx.count("unc family:" + fam)
+                if fam == "bound-uncommit-tag-removal-lock-contention":
+                    continue        # locks are not modelled; reported by the oracle
                 cases.append(case)
                 lines.append("unc %s %s %d %s %s" % (genc, st_line(before), c["d"], "T" if c["keep"] else "F",
                                                      "T" if c["local"] else "F"))
@@ -460,6 +565,12 @@ def run(ctx, ndags=None, maxn=None):
                     # the tree's own filtering against the reference
                     if err is None and after["parents"] != ref_filter(dag, ref[1]):
                         pass    # reported by the oracle above
+            elif c["f"] == "excluded":
+                rel = c["revno"] - r["before"]["revno"]
+                ctx.count("excluded-input revno=%s: %s tip %s revno %d" % (
+                    "0" if c["revno"] == 0 else "old%+d" % rel, r["err"] or "ok",
+                    "null" if r["after"]["tip"] is None else ("unchanged" if r["after"]["tip"] == r["before"]["tip"] else "moved"),
+                    r["after"]["revno"] - r["before"]["revno"]))
             else:
                 ctx.case(case, nontrivial=True)
                 ctx.count("roundtrip bound:%s pending:%d add:%s" % ("T" if c["master"] else "F", len(r["before"]["parents"]) - 1,
@@ -492,6 +603,8 @@ def replay(ctx, case):
             c["tags"] = {int(k): v for k, v in c["tags"].items()}
         if c.get("master"):
             c["master"]["tags"] = {int(k): v for k, v in c["master"]["tags"].items()}
+        if case["f"] == "excluded":
+            return dict(case=case, impl=sc.run_excluded(c), model="(excluded input: not modelled)")
         if case["f"] == "unc":
             before, err, after = sc.run_uncommit(c)
             oracle_uncommit(dag, c, before, err, after, lambda what, fam: viol.append((what, fam)))
